@@ -53,7 +53,7 @@ func init() {
 		Rule: "cases = generated colored records via WriteThru (fixed instant and frame): 15 severities (built-in, registered fg / fg+bg / no colour, unregistered), tag width 1-5, minimal width 16-80, " +
 			"single/multi-line messages with/without trailing newline (70% in the layout domain, 30% with markup or other controls), 0-24 attributes of every kind incl. errors and groups; both process modes. " +
 			"Oracles: SGR terminal-state simulator (default state at every LF and at the end), escape/control skeleton compared with the same record logged with neutralised values, layout parser over the stripped text. " +
-			"non-trivial = all clauses passed on a decoded record; distinct = by payload bytes",
+			"non-trivial = all clauses passed on a decoded record; distinct = by payload bytes Further jobs: processes with the no-color switch on, with NO_COLOR set, with the working directory removed under them. Every fourth caller case also issues a record through one of 14 public entry points from a statement of the harness and checks that the record ends with that call site; 4% of the records carry a value whose MarshalText fails with a hostile error text (judged by the escape/control skeleton only).",
 		Assumptions: []string{"ShortTag and Source.Extract of the library are used to build the expected tag and caller text (their own correctness is C17 / C14 / C18)", "under go test, error texts are generated without control bytes (the multi-line dump prints the error text verbatim by design)"},
 		Floors:      map[string]int64{"records_decoded": 100, "layout_checked": 50, "sgr_sequences_simulated": 1000},
 		Jobs: func(tier string, seed int64) []Job {
@@ -146,7 +146,7 @@ func init() {
 			"mutex-protected recording writers with optional Gosched / sleep inside Write; every call carries its id in the message and in every attribute, plus a shared unsorted Group at the call site, a shared Group at logger level, a shared error value, " +
 			"a marshaller spy that records which pooled PrintCtx formatted it, and occasional 150-350 extra attributes (jump above the pooled size hint). Runs are executed twice: without and with the Go race detector (GORACE halt_on_error=0, reports parsed from the log files, deduplicated by the logg frames of the two stacks). " +
 			"side: the same oracles for 600-1500 calls next to (a) another logger whose destination keeps reporting errors, with caller information switched on, (b) a log/slog.Logger derived with .With(...) whose records mostly have no attributes of their own, (c) a process that changed its working directory and issues half of its records through reflection (caller frame inside the Go installation). " +
-			"Oracles: any DATA RACE report with a logg frame; every payload decodes to the complete record of exactly one call; multiset of delivered ids == multiset of issued ids per logger. non-trivial = run with all records decoded; distinct = by run configuration",
+			"Oracles: any DATA RACE report with a logg frame; every payload decodes to the complete record of exactly one call; multiset of delivered ids == multiset of issued ids per logger. non-trivial = run with all records decoded; distinct = by run configuration side also has the scenario closed-elsewhere (loggers on the process's stdout while every goroutine makes, uses and closes request loggers of its own: every record arrives on stdout) and, in the failing scenario, a healthy destination behind the failing one that must get every record; a case whose calls do not return within 2 minutes ends the child and makes the run inconclusive.",
 		Assumptions: []string{"the Go race detector reports only races on executions it sees (happens-before based, no false positives)", "concurrent reconfiguration of a logger is outside the claim and not generated"},
 		Floors:      map[string]int64{"records_decoded": 5000, "max:max_writes_in_flight": 2, "goroutine_switches_in_arrival_order": 100, "print_contexts_used_by_several_goroutines": 1, "side_records_decoded": 3000},
 		Jobs: func(tier string, seed int64) []Job {
@@ -270,7 +270,7 @@ func init() {
 		Level: "fault_enumeration",
 		Rule: "complete enumeration of {7 writer configurations: 1-3 normal, 1-3 error, 0-2 per-level writers, one with the same writer in both classes} x {logger level Always, Trace, Info, Error, Panic} x {all call sequences of length 1..n over 5 severity classes: normal, error-class, Warn, per-level, custom error device} x {ALL fail/succeed assignments to the first N write attempts (global order across the fault-injecting writers; odd attempts fail with a short count; the error value rotates over 14 kinds incl. closed file/pipe, ENOSPC, wrapped ones, two whose dynamic type is not comparable and three that call themselves temporary (EAGAIN, EINTR))}; quick n=2,N=6 (57 600 cases), thorough n=3,N=10 (4 761 600 cases); every case runs on a detached logger AND on a child of a parent that admits everything and has a destination of its own, which must stay empty. " +
 			"After the faulted calls a healthy round issues every class again. Oracle per call over the attempt log: returns without panic; every selected destination is handed the complete record exactly once; diagnostics only at the warning destinations, at most one each, none for a Warn record / unfailed record / logger not admitting Warn; attempts <= |selected|+|warning destinations|; healthy round: normal delivery and no diagnostic, then one record one of whose values logs through another logger while it is being formatted (both records whole, once). " +
-			"defaultdev: 27 cases {stdout, stderr, both redirected onto /dev/full} x {logger never given writers, its child, the package-level functions} x {level Always, Error, Info}: seven calls of mixed severity must return while the process's own devices fail with ENOSPC, and arrive normally once the devices work again. devwriter: 12 cases {root, child, package functions} x {4 logger levels} in which the package's default device (GetDefaultWriter) is ONE of the logger's normal writers next to a recording one while stdout is /dev/full: the other writer gets each record once, at most one diagnostic goes to the logger's own warning destination, nothing reaches the process's stderr. After the faulted calls of every enum case a blank line (Println() / Print(\"\")) must arrive as one newline byte and draw no diagnostic. non-trivial = case in which at least one Write of a record failed; distinct = by case index",
+			"defaultdev: 27 cases {stdout, stderr, both redirected onto /dev/full} x {logger never given writers, its child, the package-level functions} x {level Always, Error, Info}: seven calls of mixed severity must return while the process's own devices fail with ENOSPC, and arrive normally once the devices work again. devwriter: 12 cases {root, child, package functions} x {4 logger levels} in which the package's default device (GetDefaultWriter) is ONE of the logger's normal writers next to a recording one while stdout is /dev/full: the other writer gets each record once, at most one diagnostic goes to the logger's own warning destination, nothing reaches the process's stderr. After the faulted calls of every enum case a blank line (Println() / Print(\"\")) must arrive as one newline byte and draw no diagnostic. non-trivial = case in which at least one Write of a record failed; distinct = by case index closedfile: files the application closed (a NewFileWriter log file, the standard-device wrappers after Close on what GetWriterBy hands out, a plain *os.File) stand in front of recording destinations; one kind has an alert destination that removes the failing one when it sees the diagnostic, one a per-level writer for Panic: returns normally, the recording destination gets the record once, at most one diagnostic and only at a warning destination.",
 		Assumptions: []string{"a failed attempt counts as 'handed the record once' (the library does not retry)", "destination selection by the C03 model, admission by the C01 rule"},
 		Floors:      map[string]int64{"schedules": 1000, "calls_with_a_failing_write": 1000, "diagnostic_records_seen": 200},
 		Exhaustive:  func(string) bool { return true },
@@ -294,7 +294,7 @@ func init() {
 		Variants: []string{"verbose"},
 		Rule: "the complete matrix {109 call sites (4 of them the Verbose entry points, which print only in a build of the library with its tag verbose: their 216 cells are run by a build variant of the workload; one with an attribute named caller; 3 of them printf verbs with %w / several verbs / none; 3 in files whose names hold quotation marks, backslashes or letters outside ASCII; 17 at chosen line numbers 1, 9|10|11, 99|100|101 ... 65535|65536, 10^6 through //line directives; the line-number flag is cleared for every third cell): 30 native verbs/Context verbs/LogAttrs/Logit/Log/printf verbs, 24 package-level functions, 5 Println forms whose first argument is not a string (native and package-level), 6 application-side facades whose type/package names collide with library or std names (applog.(*Logger).Infof/Warnf/Println over the std log bridge, a facade package named slog with a type Entry and a method logContext over the native API; the record is attributed skip minus facade depth frames above the call statement), 5 sites that also log an error carrying its own stack trace (errors.v3), 6 log/slog adapter forms (Logger.Info/WarnContext/Log/LogAttrs, With(..).Info, slog.Info after SetDefault), 4 std log bridge forms (Print/Printf/Println/Output)} x {json, logfmt, color} x {skip 0..4 set by WithSkip or SetSkip, with a wrapper chain of matching depth} x " +
 			"{root held as Logger interface, root as *Entry, child | default logger for package functions} x {inlinable, noinline wrappers; direct chains and closure chains}. Each call site is a one-line function literal that also records its own logical call stack (runtime.CallersFrames) and is executed TWICE in a row (a second record from the same statement must be attributed like the first); a WithSkip child is used only after a sibling with another skip count was derived from the same parent; " +
-			"the caller decoded from the record (file made absolute, line, function) must equal the frame `skip` logical frames above the call statement. conc: 2-16 goroutines log 300-1500 records each at the same time, each from a function of its own; every record names the function of its own call site. thorough additionally builds the workload with -gcflags=all=-l. non-trivial = confirmed attribution; distinct = by cell Every cell issues its record three times: as is, after WithSkip(n) was evaluated again for the same count, and through a child derived from the logger that carries the skip count (attributed to the statement itself: a skip count is not inherited); every 50th cell first issues records from 320 other call sites.",
+			"the caller decoded from the record (file made absolute, line, function) must equal the frame `skip` logical frames above the call statement. conc: 2-16 goroutines log 300-1500 records each at the same time, each from a function of its own; every record names the function of its own call site. thorough additionally builds the workload with -gcflags=all=-l. non-trivial = confirmed attribution; distinct = by cell Every cell issues its record three times: as is, after WithSkip(n) was evaluated again for the same count, and through a child derived from the logger that carries the skip count (attributed to the statement itself: a skip count is not inherited); every 50th cell first issues records from 320 other call sites. The whole matrix is run a second time in processes whose FIRST log/slog handler record came from a wrapping helper (own runtime.Callers, NewRecord, Handler().Handle); a third of the bridge cells first recover a panic through a second bridge built on a decorating logger.",
 		Assumptions: []string{"runtime.CallersFrames over a 16-slot Callers buffer gives the true logical stack at the call site", "privacy path flags are off so that the reported file can be compared (C18 covers them)"},
 		Floors:      map[string]int64{"attributions_confirmed": 1000},
 		Exhaustive:  func(string) bool { return true },
